@@ -633,8 +633,13 @@ class Engine:
             return False
         if callee_item.path in self.opaque:
             return False
-        if depth >= self.max_depth:
+        if depth >= self.max_depth + (2 if callee_item.path.split("@")[0] not in known_functions() else 0):
             return False
+        # a helper that did not exist when the rules were written (not in the frozen inventory) and that is loop-free and small is
+        # evaluated in place, whatever the rule's own inlining policy: `extract helper` refactors must not hide code from the rules
+        if callee_item.kind in ("Fn", "AssocFn") and callee_item.crate in ("rln", "zerokit_utils") and callee_item.path.split("@")[0] not in known_functions() \
+                and not self.has_loops(callee_item) and self.count_returns(callee_item) <= INLINE_SWITCHES:
+            return True
         if self.inline_policy is not None:
             r = self.inline_policy(callee_item)
             if r is not None:
@@ -1138,6 +1143,21 @@ def norm_cond(d, dty, cv):
                 return True, ("ok", inner), False
         return True, ("d", inner), cv
     return True, ("v", d), cv
+
+
+_KNOWN = None
+
+
+def known_functions():
+    global _KNOWN
+    if _KNOWN is None:
+        import os
+        p = os.path.join(os.path.dirname(__file__), "known_functions.txt")
+        try:
+            _KNOWN = set(l.strip() for l in open(p) if l.strip() and not l.startswith("#"))
+        except OSError:
+            _KNOWN = set()
+    return _KNOWN
 
 
 # (adt path, variant name) -> variant index, for every aggregate evaluated so far
